@@ -204,8 +204,12 @@ impl Database {
         file_manager: &mut crate::storage::FileManager,
         schema_name: &str,
         table_name: &str,
+        column_types: &[crate::records::types::DataType],
         rows: Vec<Row>,
     ) -> Result<Vec<Row>> {
+        use crate::records::types::DataType;
+        use crate::storage::toast::ToastPointer;
+
         let mut result = Vec::with_capacity(rows.len());
         for row in rows {
             let mut new_values = Vec::with_capacity(row.values.len());
@@ -214,8 +218,19 @@ impl Database {
                     OwnedValue::ToastPointer(ptr) => {
                         let data =
                             self.detoast_value(file_manager, schema_name, table_name, &ptr)?;
-                        if let Ok(s) = String::from_utf8(data.clone()) {
-                            OwnedValue::Text(s)
+                        // The pointer names the column it was written for: the value has
+                        // that column's type, whatever its bytes look like.
+                        let is_text = ToastPointer::decode(&ptr)
+                            .ok()
+                            .and_then(|p| column_types.get(p.column_index() as usize))
+                            .map(|t| {
+                                matches!(t, DataType::Text | DataType::Varchar | DataType::Char)
+                            })
+                            .unwrap_or(false);
+                        if is_text {
+                            OwnedValue::Text(String::from_utf8(data).map_err(|e| {
+                                eyre::eyre!("invalid UTF-8 in detoasted text: {}", e)
+                            })?)
                         } else {
                             OwnedValue::Blob(data)
                         }
